@@ -2603,11 +2603,59 @@ class Interp:
                 self.err(mod, e, 'class attribute not a constant')
             if isinstance(b, set) and e.attr == 'add':
                 return ('setadd', b)
+            if isinstance(b, list) and e.attr in ('pop', 'append', 'insert', 'extend', 'reverse', 'clear'):
+                return ('listm', b, e.attr)
+            if isinstance(b, str) and e.attr == 'join':
+                return ('strjoin', b)
             self.err(mod, e, 'attribute of %s not modelled' % type(b).__name__)
         if isinstance(e, ast.Tuple):
             return tuple(self.ev(x, env, mod) for x in e.elts)
         if isinstance(e, ast.List):
             return [self.ev(x, env, mod) for x in e.elts]
+        if isinstance(e, ast.BinOp) and isinstance(e.op, ast.Add):
+            a, b = self.ev(e.left, env, mod), self.ev(e.right, env, mod)
+            if isinstance(a, (list, tuple)) and type(a) is type(b):
+                return a + b
+            if isinstance(a, int) and isinstance(b, int) and not isinstance(a, bool) and not isinstance(b, bool):
+                return a + b
+            if isinstance(a, (str, TplV)) and isinstance(b, (str, TplV)):
+                if isinstance(a, str) and isinstance(b, str):
+                    return a + b
+                return TplV(self.to_toks(a, mod, e) + self.to_toks(b, mod, e))
+            self.err(mod, e, 'addition of %s and %s' % (type(a).__name__, type(b).__name__))
+        if isinstance(e, (ast.GeneratorExp, ast.ListComp)) and len(e.generators) == 1 and not e.generators[0].is_async \
+                and isinstance(e.generators[0].target, ast.Name):
+            g = e.generators[0]
+            it = self.ev(g.iter, env, mod)
+            if not isinstance(it, (list, tuple)) or len(it) > 200:
+                self.err(mod, e, 'comprehension over something else than a list')
+            out = []
+            for v in it:
+                env2 = dict(env)
+                env2[g.target.id] = v
+                if all(self.truth(self.ev(c, env2, mod), mod, c) for c in g.ifs):
+                    out.append(self.ev(e.elt, env2, mod))
+            return out
+        if isinstance(e, ast.Subscript):
+            b = self.ev(e.value, env, mod)
+            if isinstance(b, (list, tuple)):
+                def idx_of(n):
+                    if n is None:
+                        return None
+                    v = self.ev(n, env, mod)
+                    if not isinstance(v, int) or isinstance(v, bool):
+                        self.err(mod, e, 'subscript that is not a constant integer')
+                    return v
+                try:
+                    if isinstance(e.slice, ast.Slice):
+                        return b[slice(idx_of(e.slice.lower), idx_of(e.slice.upper), idx_of(e.slice.step))]
+                    return b[idx_of(e.slice)]
+                except IndexError:
+                    self.err(mod, e, 'index out of range')
+            self.err(mod, e, 'subscript of %s' % type(b).__name__)
+        if isinstance(e, ast.UnaryOp) and isinstance(e.op, ast.USub) and isinstance(e.operand, ast.Constant) \
+                and isinstance(e.operand.value, int):
+            return -e.operand.value
         if isinstance(e, ast.BoolOp):
             v = None
             for x in e.values:
@@ -2744,6 +2792,33 @@ class Interp:
         if isinstance(fv, tuple) and fv[0] == 'setadd':
             fv[1].add(args[0])
             return None
+        if isinstance(fv, tuple) and fv and fv[0] == 'listm':
+            lst, name = fv[1], fv[2]
+            try:
+                if name == 'pop' and len(args) <= 1 and all(isinstance(a, int) for a in args):
+                    return lst.pop(*args)
+                if name == 'append' and len(args) == 1:
+                    return lst.append(args[0])
+                if name == 'extend' and len(args) == 1 and isinstance(args[0], (list, tuple)):
+                    return lst.extend(args[0])
+                if name == 'insert' and len(args) == 2 and isinstance(args[0], int):
+                    return lst.insert(args[0], args[1])
+                if name in ('reverse', 'clear') and not args:
+                    return getattr(lst, name)()
+            except IndexError:
+                self.err(mod, e, 'pop from an empty list')
+            self.err(mod, e, 'list.%s with these arguments' % name)
+        if isinstance(fv, tuple) and fv and fv[0] == 'strjoin':
+            if len(args) != 1 or not isinstance(args[0], (list, tuple)):
+                self.err(mod, e, 'str.join over something else than a list')
+            toks = []
+            for i, part in enumerate(args[0]):
+                if not isinstance(part, (str, TplV)):
+                    self.err(mod, e, 'str.join of %s' % type(part).__name__)     # Python raises TypeError for non-strings
+                if i and fv[1]:
+                    toks.append(Tok('lit', text=fv[1]))
+                toks.extend(self.to_toks(part, mod, e))
+            return TplV(toks)
         if isinstance(fv, FuncRef):
             c, fn = fv.c, fv.fn
             if c is not None and fn.name == 'fixed_format_number' and len(args) == 2 and isinstance(args[1], int):
